@@ -1,16 +1,27 @@
 #!/bin/bash
 # Runs the repository's own pytest suite (guard off), sharded per test file over N parallel pytest processes.
-# usage: bin/repo_tests.sh [repo_dir] [jobs]   -> prints total passed/failed, exit 0 iff no failure and 285 passed
+# usage: bin/repo_tests.sh [repo_dir] [jobs]   -> prints total passed/failed, exit 0 iff no failure and 285 passed.
+# A failing test file is re-run up to 2 more times: the suite is unseeded and has rare flaky cases on the clean tree too
+# (WaterCycle best_agent([]) ~1/300, AntColony fitness_error timeout).
 REPO=${1:-/repo}; JOBS=${2:-12}
 OUT=$(mktemp -d /tmp/pvtests.XXXXXX)
 cd "$REPO" || exit 2
-ls tests/test_*.py tests/algorithms/test_*.py | \
-  xargs -P "$JOBS" -I{} sh -c 'PYTHONPATH="$PWD" PYTHONDONTWRITEBYTECODE=1 /venv/bin/python -m pytest -q -p no:cacheprovider --timeout=900 "$1" > "$2/$(echo "$1" | tr / _).log" 2>&1; echo "$? $1" >> "$2/status"' _ {} "$OUT"
+run_one='PYTHONPATH="$PWD" PYTHONDONTWRITEBYTECODE=1 /venv/bin/python -m pytest -q -p no:cacheprovider --timeout=900 "$1" > "$2/$(echo "$1" | tr / _).log" 2>&1; echo "$? $1" >> "$2/status"'
+ls tests/test_*.py tests/algorithms/test_*.py | xargs -P "$JOBS" -I{} sh -c "$run_one" _ {} "$OUT"
+retried=""
+for attempt in 1 2; do
+  bad=$(awk '$1!=0 {print $2}' "$OUT/status")
+  [ -z "$bad" ] && break
+  retried="$retried $bad"
+  : > "$OUT/status.new"; grep '^0 ' "$OUT/status" > "$OUT/status.new"; mv "$OUT/status.new" "$OUT/status"
+  echo "$bad" | xargs -P "$JOBS" -I{} sh -c "$run_one" _ {} "$OUT"
+done
 passed=$(grep -ho '[0-9]* passed' "$OUT"/*.log | awk '{s+=$1} END{print s+0}')
 failed=$(grep -ho '[0-9]* failed' "$OUT"/*.log | awk '{s+=$1} END{print s+0}')
 errors=$(grep -ho '[0-9]* error' "$OUT"/*.log | awk '{s+=$1} END{print s+0}')
 bad=$(awk '$1!=0' "$OUT/status")
 echo "passed=$passed failed=$failed errors=$errors"
+[ -n "$retried" ] && echo "re-run after a first failure:$retried"
 if [ -n "$bad" ]; then echo "non-zero shards:"; echo "$bad"; for f in $(echo "$bad" | awk '{print $2}'); do tail -30 "$OUT/$(echo "$f" | tr / _).log"; done; fi
 rm -rf "$OUT"
 [ -z "$bad" ] && [ "$passed" = "285" ]
